@@ -205,19 +205,23 @@ func (checkerComp) Init(*app.App) error                                { return 
 func (checkerComp) Name() string                                       { return "verif.protochecker" }
 func (checkerComp) IsNetworkNeedsUpdate(context.Context) (bool, error) { return false, nil }
 
-var paths = []string{"init", "store", "update"}
+var paths = []string{"init", "store", "update", "store-merge"}
 
 // buildReal makes one participant: a fresh real nodeconf service whose account is self and whose current
 // configuration is `nodes` (in that order), obtained by the given path:
 //
 //	init   — it is the application's configured network configuration (nothing stored);
 //	store  — it was stored earlier (the application config is an older one listing only the coordinators);
+//	store-merge — as store, but the application config knows one more address of a coordinator (or, when the
+//	         configuration lists no coordinator, one more coordinator-only node) than the stored configuration: the
+//	         restart merges it into the stored configuration and rewrites it (id "-1" until re-pulled);
 //	update — the participant started with an older configuration (same peers, all typed "tree") and received
 //	         this one from the configuration source while running.
 //
 // Returns the service, the number of real ring builds, and a closer.
 func buildReal(nodes []nodeSpec, self, path string) (svc nodeconf.Service, builds int, closeFn func(), err error) {
 	conf := toConfiguration("cfg-current", nodes)
+	wantId := "cfg-current"
 	cfg := &cfgComp{c: conf}
 	src := &srcComp{}
 	st := &storeComp{}
@@ -234,6 +238,23 @@ func buildReal(nodes []nodeSpec, self, path string) (svc nodeconf.Service, build
 		}
 		cfg.c = toConfiguration("cfg-boot", boot)
 		st.have, st.c = true, toConfiguration("cfg-current", nodes)
+	case "store-merge":
+		var boot []nodeSpec
+		for _, n := range nodes {
+			for _, t := range n.Types {
+				if t == "coordinator" {
+					boot = append(boot, n)
+				}
+			}
+		}
+		cfg.c = toConfiguration("cfg-boot", boot)
+		if len(cfg.c.Nodes) > 0 {
+			cfg.c.Nodes[0].Addresses = append(append([]string{}, cfg.c.Nodes[0].Addresses...), "verif-extra-address:1")
+		} else {
+			cfg.c.Nodes = append(cfg.c.Nodes, nodeconf.Node{PeerId: makePeerId("extra-coordinator"), Addresses: []string{"verif-extra-address:2"}, Types: []nodeconf.NodeType{nodeconf.NodeTypeCoordinator}})
+		}
+		st.have, st.c = true, toConfiguration("cfg-current", nodes)
+		wantId = "-1"
 	case "update":
 		boot := make([]nodeSpec, len(nodes))
 		for i, n := range nodes {
@@ -268,7 +289,7 @@ func buildReal(nodes []nodeSpec, self, path string) (svc nodeconf.Service, build
 		}
 		builds = 2
 	}
-	if got := svc.Configuration().Id; got != "cfg-current" {
+	if got := svc.Configuration().Id; got != wantId {
 		closeFn()
 		return nil, 0, nil, fmt.Errorf("harness: participant holds configuration %q, not the enumerated one", got)
 	}
@@ -693,7 +714,7 @@ func body(c *vk.Ctx) {
 	c.Bound("max_nodes_rotations_and_reverse_only", maxSub)
 	c.Bound("type_sets", typeSetNames)
 	c.Bound("replication_factor", nodeconf.ReplicationFactor)
-	c.Bound("paths", "init for every order; store and update for the first and last order")
+	c.Bound("paths", "init for every order; store, update and store-merge for the first and last order")
 
 	// probe ring: all peers are sync nodes
 	var all []nodeSpec
